@@ -17,7 +17,7 @@ RULE = ('case = (server dialogue of <= 4 events, shell flavour, login options, m
         'clock; non-trivial = the dialogue contains a question, a prompt-like banner, a refusal or silence')
 ASSUMPTIONS = ['the server is a deterministic model (no echo); "password prompt" for the oracle = any server output matching the password regex',
                '"reached a shell prompt" = the server model is in shell state; timeouts are virtual (login_timeout=1, timeout=2)']
-REQUIRED_FLAGS = {'password_sent': 1, 'hostkey_yes': 1, 'login_true': 1, 'login_raised': 1, 'prompt_delimits': 1, 'flavour_csh': 1, 'flavour_zsh': 1}
+REQUIRED_FLAGS = {'second_hop': 1, 'slow_link_login': 1, 'password_sent': 1, 'hostkey_yes': 1, 'login_true': 1, 'login_raised': 1, 'prompt_delimits': 1, 'flavour_csh': 1, 'flavour_zsh': 1}
 
 EVENTS = ['hostkey', 'password', 'passphrase', 'denied', 'termtype', 'shell', 'weird', 'banner', 'pwbanner', 'closed', 'silence', 'exit']
 TEXT = {
@@ -36,8 +36,11 @@ PWRE = re.compile(br'(?i)(?:password:)|(?:passphrase for key)')
 
 
 class Server(object):
-    def __init__(self, env, sp, events, flavour):
+    def __init__(self, env, sp, events, flavour, latency=0.0):
         self.env, self.sp = env, sp
+        self.latency = latency
+        self.hop2 = None             # None | 'asked' | 'shell'
+        self.hop2_pw = 0
         self.events = list(events)
         self.flavour = flavour
         self.i = 0
@@ -54,7 +57,10 @@ class Server(object):
     def out(self, data):
         if data:
             self.transcript.append(('out', data))
-            self.env.peer_write(self.sp.hs_slave, data)
+            if self.latency:
+                self.env.add('w', data, at=self.env.now() + self.latency, fd=self.sp.hs_slave)
+            else:
+                self.env.peer_write(self.sp.hs_slave, data)
 
     def lines(self):
         data = bytes(self.env.sent.get(self.sp.hs_master, b''))
@@ -89,6 +95,16 @@ class Server(object):
                 self.prompt = b'[PEXPECT]$ '
             elif f == 'sh':
                 self.prompt = b'[PEXPECT]%(!.#.$) '
+        elif line.startswith(b'/bin/true') and self.hop2 is None:
+            # second hop (spawn_local_ssh=False): banner with prompt-like characters, then a password prompt
+            self.hop2 = 'asked'
+            self.out(b'Welcome to hop2 # maintenance at 5$\r\n' + TEXT['password'])
+            return
+        elif self.hop2 == 'asked':
+            if line == PW.encode():
+                self.hop2_pw += 1
+            self.hop2 = 'shell'
+            self.prompt = b'inner> '
         elif line.startswith(b'echo '):
             self.out(line[5:] + b'\r\n')
         elif line in (b'', b'unset PROMPT_COMMAND'):
@@ -160,6 +176,8 @@ def hpx_class():
 
 OPTIONS = [dict(auto_prompt_reset=a, sync_original_prompt=s, password=p)
            for a in (True, False) for s in (True, False) for p in (PW, '')]
+# a slow link: every server reply arrives 0.6 s (> try_read_prompt's first-character timeout) after it was produced
+OPTIONS.append(dict(auto_prompt_reset=True, sync_original_prompt=True, password=PW, latency=0.6))
 
 
 def bounds(tier):
@@ -186,7 +204,7 @@ def run_case(task, events, flavour, opt):
     try:
         def on_spawn(sp):
             box['sp'] = sp
-            box['srv'] = Server(env, sp, events, flavour)
+            box['srv'] = Server(env, sp, events, flavour, opt.get('latency', 0.0))
             env.pump = box['srv'].pump
         env.on_spawn = on_spawn
         cls = hpx_class()
@@ -196,7 +214,7 @@ def run_case(task, events, flavour, opt):
         result = None
         exc = None
         try:
-            result = s.login('h', 'user', password=opt['password'], login_timeout=1, cmd='/bin/true',
+            result = s.login('h', 'user', password=opt['password'], login_timeout=3 if opt.get('latency') else 1, cmd='/bin/true',
                              auto_prompt_reset=opt['auto_prompt_reset'], sync_original_prompt=opt['sync_original_prompt'])
         except E.Hang:
             raise
@@ -270,6 +288,19 @@ def run_case(task, events, flavour, opt):
                             break
                     else:
                         obs['delimits'] = True
+                        if not opt.get('latency'):
+                            # multi-hop: a second login() on the SAME object with its own original_prompt
+                            try:
+                                r2 = s.login('h2', 'user', password=PW, login_timeout=1, cmd='/bin/true', spawn_local_ssh=False,
+                                             original_prompt=r'inner> ', auto_prompt_reset=False, sync_original_prompt=False)
+                            except ExceptionPexpect as e2:
+                                r2 = 'raised %s' % type(e2).__name__
+                            obs['hop2'] = (r2, srv.hop2, srv.hop2_pw)
+                            if r2 is True and (srv.hop2 != 'shell' or srv.hop2_pw != 1):
+                                viol = viol or ('hop2', 'second login() on the same object (original_prompt "inner> ") returned True with the far '
+                                                'side in state %r and the password sent %d times' % (srv.hop2, srv.hop2_pw))
+                            elif r2 is not True:
+                                viol = viol or ('hop2', 'second login() on the same object failed: %r (far side %r)' % (r2, srv.hop2))
     except E.Hang as h:
         viol = ('hang', 'login() never returns: %s' % h)
     except Cut as c:
@@ -321,6 +352,10 @@ def run_task(task):
                         acc.flags['login_raised'] += 1
                     if obs.get('delimits'):
                         acc.flags['prompt_delimits'] += 1
+                    if obs.get('hop2'):
+                        acc.flags['second_hop'] += 1
+                    if opt.get('latency') and obs.get('result') is True:
+                        acc.flags['slow_link_login'] += 1
                     acc.outcomes['%s/%s' % (obs.get('exc') or obs.get('result'), 'viol:' + viol[0] if viol else 'ok')] += 1
                     if viol:
                         acc.violation(vkey(task, events, opt, viol[0], obs),
